@@ -44,3 +44,6 @@ def build(H, tier, seed):
 
 def standins(tier, seed):
     return K.symcoef_jobs('C05', ['hodge', 'unhodge', 'polarity', 'unpolarity', 'rp'], tier, seed, extra_configs=CUSTOM)
+
+
+replay = K.replay_operator
